@@ -462,7 +462,7 @@ Lemma einv_step s ch : einv s -> (g_epoch (step c s ch) <> g_epoch s -> no_stamp
 Proof.
   intros [Hp Hl] Hk.
   assert (Hp' : places_ok (PE (g_epoch s)) (step c s ch)).
-  { apply (step_places _ True); [exact Hp | apply transfers_PE, Hidem | intros; exact I | intros x _ _; apply PE_submit | apply PE_shutdown]. }
+  { apply (step_places _ True); [exact Hp | apply transfers_PE, Hidem | intros; exact I | intros x _ _ _; apply PE_submit | apply PE_shutdown]. }
   destruct (Z.eq_dec (g_epoch (step c s ch)) (g_epoch s)) as [Ee|Ne].
   - unfold einv. rewrite Ee. split; [exact Hp'|]. unfold step. destruct (g_panic s); [exact Hl|].
     destruct (g_panic (raw_step c s ch)); [eapply lab_same; [|exact Hl]; reflexivity | apply raw_step_lab; split; assumption].
